@@ -5,5 +5,6 @@ CONSTANTS
   MaxRpc = 3
   InLock = TRUE
   MaxWedged = 0
+  AllowReset = FALSE
 INVARIANTS TypeOK Sync CanMakeCallsConsistent ServedByLive UnavailOnlyIfEmpty Resumable NoStaleReady
 CHECK_DEADLOCK FALSE
